@@ -39,7 +39,7 @@ def main():
         "hooks": {
             "guard": "EPHEMERALNET_VERIF",
             "enable": "harness builds pass -DEPHEMERALNET_VERIF=1 (harness/CMakeLists.txt); see DESIGN.md §2.3 for what is hooked",
-            "baseline_off_cmd": "cmake -G Ninja -S /repo -B /repo/_build -DCMAKE_BUILD_TYPE=RelWithDebInfo && cmake --build /repo/_build -j16 && ctest --test-dir /repo/_build -j8 --timeout 900",
+            "baseline_off_cmd": "/verif/tools/run_baseline.sh",
             "source_commits": props.HOOK_COMMITS,
             "add_only": True,
         },
